@@ -19,6 +19,13 @@
 #define VERIF_REACH_PT(name) ((void)0)
 #endif
 
+/* reachability of a contract case: with -DVERIF_REACH the negated case becomes an ensures clause that must FAIL */
+#if defined(VERIF_CBMC) && defined(VERIF_REACH)
+#define VERIF_REACH_ENSURES(cond) __CPROVER_ensures(!(cond))
+#else
+#define VERIF_REACH_ENSURES(cond)
+#endif
+
 typedef int64_t CAmount;
 
 #ifdef VERIF_CBMC
